@@ -12,10 +12,13 @@ state satisfying `Inv`:
 * the queue export is `bits` zero padded to whole words and the queue decoder hands out exactly
   the bits of the words, first written first.
 -/
+set_option linter.unusedSimpArgs false
+set_option linter.unusedVariables false
+set_option linter.unnecessarySimpa false
 namespace CV.Bits
 
 /-- decidable equality of results, so that concrete instances can be checked by `decide` -/
-instance instDecidableEqExcept {ε α : Type} [DecidableEq ε] [DecidableEq α] :
+scoped instance instDecidableEqExcept {ε α : Type} [DecidableEq ε] [DecidableEq α] :
     DecidableEq (Except ε α) := fun a b =>
   match a, b with
   | .ok x, .ok y => if h : x = y then isTrue (by rw [h]) else isFalse (by intro h'; cases h'; exact h rfl)
